@@ -46,12 +46,25 @@ def flat (t : String) : Option FStmt :=
   | ["dec", v] => some (FStmt.dec v)
   | _ => none
 
-def cond (t : String) : Option Cond :=
+def condLeaf (t : String) : Option Cond :=
   match t.splitOn ":" with
   | ["cmp", o, a, b] => do let o ← cop o; let a ← atom a; let b ← atom b; some (Cond.cmp o a b)
   | ["t", v] => some (Cond.truth v)
   | ["nt", v] => some (Cond.nottruth v)
   | _ => none
+
+/-- cond := and cond cond | or cond cond | not cond | leaf -/
+def condP : Nat → List String → Option (Cond × List String)
+  | 0, _ => none
+  | _, [] => none
+  | f + 1, t :: r =>
+    if t == "and" then do
+      let (a, r1) ← condP f r; let (b, r2) ← condP f r1; some (.and a b, r2)
+    else if t == "or" then do
+      let (a, r1) ← condP f r; let (b, r2) ← condP f r1; some (.or a b, r2)
+    else if t == "not" then do
+      let (a, r1) ← condP f r; some (.not a, r1)
+    else (condLeaf t).map fun c => (c, r)
 
 mutual
 def stmt : Nat → List String → Option (SStmt × List String)
@@ -60,29 +73,27 @@ def stmt : Nat → List String → Option (SStmt × List String)
   | f + 1, t :: r =>
     if t == "skip" then some (.skip, r)
     else if t == "{" then block f r
-    else if t == "if" then
-      match r with
-      | c :: r1 => do let c ← cond c; let (b, r2) ← stmt f r1; some (.ifThen c b, r2)
-      | _ => none
-    else if t == "ife" then
-      match r with
-      | c :: r1 => do let c ← cond c; let (b, r2) ← stmt f r1; let (e, r3) ← stmt f r2; some (.ifElse c b e, r3)
-      | _ => none
-    else if t == "wh" then
-      match r with
-      | c :: r1 => do let c ← cond c; let (b, r2) ← stmt f r1; some (.while c b, r2)
-      | _ => none
+    else if t == "if" then do
+      let (c, r1) ← condP f r; let (b, r2) ← stmt f r1; some (.ifThen c b, r2)
+    else if t == "ife" then do
+      let (c, r1) ← condP f r; let (b, r2) ← stmt f r1; let (e, r3) ← stmt f r2; some (.ifElse c b e, r3)
+    else if t == "wh" then do
+      let (c, r1) ← condP f r; let (b, r2) ← stmt f r1; some (.while c b, r2)
     else if t == "do" then do
       let (b, r1) ← stmt f r
-      match r1 with
-      | c :: r2 => do let c ← cond c; some (.doWhile b c, r2)
-      | _ => none
+      let (c, r2) ← condP f r1
+      some (.doWhile b c, r2)
     else if t == "for" then
       match r with
-      | i :: c :: u :: r1 => do
-        let i ← flat i; let c ← cond c; let u ← flat u
-        let (b, r2) ← stmt f r1
-        some (.for i c u b, r2)
+      | i :: r0 => do
+        let i ← flat i
+        let (c, r1) ← condP f r0
+        match r1 with
+        | u :: r2 => do
+          let u ← flat u
+          let (b, r3) ← stmt f r2
+          some (.for i c u b, r3)
+        | _ => none
       | _ => none
     else (flat t).map fun s => (.flat s, r)
 def block : Nat → List String → Option (SStmt × List String)
